@@ -14,7 +14,6 @@
 package cast
 
 import (
-	"reflect"
 	"unsafe"
 )
 
@@ -23,12 +22,12 @@ import (
 // NOTE! Using this function is extremely dangerous, so it can be used with
 // extra care with clear understanding how it works
 func StringToByteArray(v string) []byte {
-	var slcHdr reflect.SliceHeader
-	sh := *(*reflect.StringHeader)(unsafe.Pointer(&v))
-	slcHdr.Data = sh.Data
-	slcHdr.Cap = sh.Len
-	slcHdr.Len = sh.Len
-	return *(*[]byte)(unsafe.Pointer(&slcHdr))
+	if len(v) == 0 {
+		return []byte{}
+	}
+	// the bytes stay reachable through a real pointer all the time (a reflect.SliceHeader built by hand keeps
+	// them in a uintptr only, which the garbage collector does not follow)
+	return unsafe.Slice(unsafe.StringData(v), len(v))
 }
 
 // ByteArrayToString turns a slice of bytes to string, without extra memory allocations
